@@ -54,14 +54,14 @@ na = {
  "C01": "contracts not yet written in this round (planned: host table, section layout, varints) — see DESIGN 4",
  "C02": "contracts not yet written in this round (planned: result accumulator) — see DESIGN 4",
  "C03": "contracts not yet written in this round (planned: invert/operators/rule sites) — see DESIGN 4",
- "C04": "contracts not yet written in this round — see DESIGN 4",
+ "C04": "within the family in principle, but no contract is written: the matcher (progressVariant.find, progress groups) is built from closures over regexp engine calls and maps of shared expressions; the only related obligations are those of C18 (length/suffix facts the shortcuts rely on). The defect found by reading (F-C04-1: shortcuts re-anchor $ ^ \\b) is documented in DESIGN 7, not decided by a check",
  "C05": "the claim is about what gopacket's TCP reassembly/IP defragmentation deliver for every segmentation and reordering; that behaviour lives in an external library without a contract, so no function in /repo has a postcondition that can say 'what the endpoints exchanged'",
- "C06": "contracts not yet written in this round (sequential kernel only) — see DESIGN 4",
+ "C06": "the property quantifies over interleavings of job completions with API calls (no schedule model in this family); its sequential kernel (invalidation handlers over map[string]*tag) needs range-over-map and aliased heap writes, which the VC generator does not support; no contract written. F-C06-1 is documented in DESIGN 7",
  "C07": "contracts not yet written in this round — see DESIGN 4",
  "C08": "a relation between whole runs of the importer over different batchings (plus external reassembly and snapshots); relational whole-history claims are outside per-function contracts",
  "C09": "liveness (eventual quiescence under every delivery order); contracts prove safety and per-loop termination only",
  "C10": "contracts not yet written in this round (enumeration kernel only) — see DESIGN 4",
- "C11": "contracts not yet written in this round — see DESIGN 4",
+ "C11": "the tag handlers are closures over map[string]*tag with range-over-map fixed-point walks; the VC generator supports neither iteration over maps nor sound aliasing for writes through two heap references, so no contract could be brought to a proof. F-C11-1..3 are documented in DESIGN 7",
  "C12": "quantifies over crash points inside file-system operations; a function contract has no model of partial writes, rename ordering or process death (the one torn-write claim that is a function contract is handled under C15)",
  "C13": "pairing of lock/release across goroutine hand-offs and job completion order; no thread or schedule model in this family",
  "C14": "contracts not yet written in this round — see DESIGN 4",
